@@ -60,10 +60,10 @@ def run_specs(prop, specs, tag, coqeval=0):
         per = max(1, coqeval // min(len(shards), 4))
         tot = dict(cases=0, agree=0, problems=[])
         for p in shards[:4]:
-            r = eng_coqeval.run_geom(prop, p, per, verdicts)
-            tot["cases"] += r["cases"]
-            tot["agree"] += r["agree"]
-            tot["problems"] += r["problems"]
+            for r in (eng_coqeval.run_geom(prop, p, per, verdicts), eng_coqeval.run_pairs(prop, p, per, verdicts)):
+                tot["cases"] += r["cases"]
+                tot["agree"] += r["agree"]
+                tot["problems"] += r["problems"]
         res["coq_eval"] = tot
         for pr in tot["problems"]:
             res["mismatches"].append(dict(engine="geom", case="(in-Coq evaluation)", what=pr))
